@@ -675,28 +675,61 @@ async fn send_response(substream: &mut Substream, entries: Vec<ResponseType>) ->
         .collect::<VecDeque<_>>();
 
     while let Some(batch) = extract_next_batch(&mut blocks, config::MAX_BATCH_SIZE) {
-        if let Some((message, block_count)) = blocks_message(batch) {
-            if message.len() <= config::MAX_MESSAGE_SIZE {
-                tracing::trace!(
-                    target: LOG_TARGET,
-                    block_count,
-                    "sending Bitswap blocks message",
-                );
-                match tokio::time::timeout(WRITE_TIMEOUT, substream.send_framed(message)).await {
-                    Err(_) => return Err(Error::Timeout),
-                    Ok(Err(e)) => return Err(Error::SubstreamError(e)),
-                    Ok(Ok(())) => {}
+        // The batch limit only counts block data. A batch of very many tiny blocks can still
+        // exceed the message limit once the per-block prefix and framing are added, so split it
+        // further using a conservative bound on that overhead.
+        let mut batch = batch.collect::<Vec<_>>();
+
+        while !batch.is_empty() {
+            let mut encoded_size = 0usize;
+            let mut count = 0usize;
+
+            for (_, block) in batch.iter() {
+                let size = block.len() + BLOCK_ENCODING_OVERHEAD;
+                if count > 0 && encoded_size + size > config::MAX_MESSAGE_SIZE {
+                    break;
                 }
-            } else {
-                // This should never happen in practice, but log a warning if the blocks message
-                // exceeded [`config::MAX_MESSAGE_SIZE`].
-                tracing::warn!(
-                    target: LOG_TARGET,
-                    size = message.len(),
-                    max_size = config::MAX_MESSAGE_SIZE,
-                    "outgoing Bitswap blocks message exceeded max size",
-                );
+                encoded_size += size;
+                count += 1;
             }
+
+            let rest = batch.split_off(count);
+            let chunk = std::mem::replace(&mut batch, rest);
+
+            send_blocks(substream, chunk).await?;
+        }
+    }
+
+    Ok(())
+}
+
+/// Upper bound for the encoding overhead of one block in a Bitswap message: payload field header,
+/// prefix field with four varints, and data field header.
+const BLOCK_ENCODING_OVERHEAD: usize = 64;
+
+/// Send one message containing `blocks`.
+async fn send_blocks(substream: &mut Substream, blocks: Vec<(Cid, Vec<u8>)>) -> Result<(), Error> {
+    if let Some((message, block_count)) = blocks_message(blocks) {
+        if message.len() <= config::MAX_MESSAGE_SIZE {
+            tracing::trace!(
+                target: LOG_TARGET,
+                block_count,
+                "sending Bitswap blocks message",
+            );
+            match tokio::time::timeout(WRITE_TIMEOUT, substream.send_framed(message)).await {
+                Err(_) => return Err(Error::Timeout),
+                Ok(Err(e)) => return Err(Error::SubstreamError(e)),
+                Ok(Ok(())) => {}
+            }
+        } else {
+            // This should never happen in practice, but log a warning if the blocks message
+            // exceeded [`config::MAX_MESSAGE_SIZE`].
+            tracing::warn!(
+                target: LOG_TARGET,
+                size = message.len(),
+                max_size = config::MAX_MESSAGE_SIZE,
+                "outgoing Bitswap blocks message exceeded max size",
+            );
         }
     }
 
